@@ -309,11 +309,25 @@ Section Helpers.
       split; [|reflexivity]. destruct (am s); [congruence|]. cbn in n. lia.
   Qed.
 
+  (* a unit shell restricted to a non-empty selection of momenta is well-formed *)
+  Lemma unit_shell_am_wf : forall s (ams : list Z) x, ams <> [] -> wf_shell (unit_shell_am one_lit s ams x).
+  Proof.
+    intros s ams x Hne.
+    unfold unit_shell_am, FSDefs.wf_shell, rect, nz_cols, am_ok. cbn [am coefs exps].
+    split; [|split; [split|]].
+    - apply Forall_forall. intros c Hcin. apply in_map_iff in Hcin. destruct Hcin as [y [<- _]]. reflexivity.
+    - destruct ams as [|l t]; [congruence|]. cbn [map]. discriminate.
+    - apply Forall_forall. intros c Hcin. apply in_map_iff in Hcin. destruct Hcin as [y [<- _]].
+      exists one_lit. split; [left; reflexivity | apply (one_not0 Hc)].
+    - rewrite map_length. destruct ams as [|l [|l2 t]]; [congruence | left; reflexivity | right].
+      split; [cbn [length]; lia | reflexivity].
+  Qed.
+
   Lemma unc_seg_wf : forall shs : list shell, wf_shells shs -> wf_shells (unc_seg_shells same one_lit shs []).
   Proof.
     intros shs Hwf. unfold FSDefs.wf_shells in *. rewrite Forall_forall in *. intros u Hu.
-    destruct (unc_seg_shells_shape N same one_lit shs u Hu) as [s [x [Hs [_ ->]]]].
-    apply unit_shell_wf. apply Hwf; exact Hs.
+    destruct (unc_seg_shells_shape N same one_lit shs u Hu) as [s [x [ams [Hs [_ [Hne [_ ->]]]]]]].
+    apply unit_shell_am_wf. exact Hne.
   Qed.
 
   (* ---------------- basis level: the operations of pipeline5 with the weak invariant ---------------- *)
